@@ -65,6 +65,11 @@ struct Cfg {
   int live_mask = 7; // which live outputs are switched on
   int source_type = 0; // 0 SingleStar, 1 AsciiFile, 2 UniformRandom, 3 SingleSupernova, 4 DiscPatch, 5 Caproni (positions on galactic scales: only without radiation)
   bool feedback = false;
+  int snap_mode = 0;      // 0: start/end only, 1: every 1.5 steps, 2: every 0.75
+  int first_snapshot = 0; // index of the first snapshot written
+  int rad_mode = 0;       // 0: radiation every step, 1: every 2.5 steps
+  double max_neutral = -1.;
+  bool diffuse_rhd = false;
   // C14 (system level): where the process dies during a restart dump
   double crash_frac = 0.;  // fraction of the numbered file operations
   int crash_variant = 0;   // 0 before, 1 after, 2 torn write
@@ -130,6 +135,11 @@ struct Cfg {
     j["live_mask"] = live_mask;
     j["source_type"] = source_type;
     j["feedback"] = feedback;
+    j["snap_mode"] = snap_mode;
+    j["first_snapshot"] = first_snapshot;
+    j["rad_mode"] = rad_mode;
+    j["max_neutral"] = dbl_bits(max_neutral);
+    j["diffuse_rhd"] = diffuse_rhd;
     j["crash_frac"] = dbl_bits(crash_frac);
     j["crash_variant"] = crash_variant;
     j["crash_torn"] = dbl_bits(crash_torn);
@@ -188,6 +198,11 @@ struct Cfg {
     c.live_mask = (int)j.at("live_mask").as_int(7);
     c.source_type = (int)j.at("source_type").as_int(0);
     c.feedback = j.at("feedback").as_bool();
+    c.snap_mode = (int)j.at("snap_mode").as_int(0);
+    c.first_snapshot = (int)j.at("first_snapshot").as_int(0);
+    c.rad_mode = (int)j.at("rad_mode").as_int(0);
+    c.max_neutral = j.has("max_neutral") ? bits_dbl(j.at("max_neutral").as_string()) : -1.;
+    c.diffuse_rhd = j.at("diffuse_rhd").as_bool();
     c.crash_frac = j.has("crash_frac") ? bits_dbl(j.at("crash_frac").as_string()) : 0.;
     c.crash_variant = (int)j.at("crash_variant").as_int(0);
     c.crash_torn = j.has("crash_torn") ? bits_dbl(j.at("crash_torn").as_string()) : 0.5;
@@ -328,6 +343,9 @@ struct Cfg {
            "cm^3 s^-1\n";
     }
     o << "TemperatureCalculator:\n  do temperature calculation: false\n";
+    if (diffuse_rhd && radiation)
+      o << "DiffuseReemissionHandler:\n  type: FixedValue\n  reemission "
+           "probability: 0.364\n";
     o << "TaskBasedRadiationHydrodynamicsSimulation:\n";
     o << sfmt("  total time: %.17g s\n", total_time);
     if (dt > 0.) {
@@ -337,7 +355,21 @@ struct Cfg {
       o << sfmt("  maximum timestep: %.17g s\n", total_time);
       o << sfmt("  minimum timestep: %.17g s\n", total_time * 1e-14);
     }
-    o << sfmt("  snapshot time: %.17g s\n", total_time * 4.);
+    // snapshots: only at the start and the end (0), or every few steps
+    if (snap_mode == 0)
+      o << sfmt("  snapshot time: %.17g s\n", total_time * 4.);
+    else
+      o << sfmt("  snapshot time: %.17g s\n",
+                (dt > 0. ? dt : total_time / 64.) * (snap_mode == 1 ? 1.5 : 0.75));
+    if (first_snapshot > 0)
+      o << "  first snapshot: " << first_snapshot << "\n";
+    if (rad_mode == 1)
+      o << sfmt("  radiation time: %.17g s\n",
+                (dt > 0. ? dt : total_time / 64.) * 2.5);
+    if (max_neutral > 0.)
+      o << sfmt("  maximum neutral fraction: %.17g\n", max_neutral);
+    if (diffuse_rhd && radiation)
+      o << "  diffuse field: true\n";
     o << sfmt("  CFL: %.17g\n", cfl);
     o << "  do radiation: " << (radiation ? "true" : "false") << "\n";
     o << "  number of iterations: 2\n";
